@@ -119,7 +119,7 @@ check('C19', 'other',
       'one load line per loaded pulse with degree+1 coefficient lines, current blocks with J/E lines and numbered rows, far-field rows, one E and '
       'one H block per near-field point, independent part once and dependent part per sweep step). Values: every number of every report is read '
       'back from the text and compared with the value it reports (5e-6 relative, +1e-6 absolute for fixed-point fields, %.3E fields 5e-4, %.2f '
-      'fields 0.005), magnitude / phase columns against real / imaginary; synthetic currents, fields, loads and powers drive magnitudes 1e-30 .. '
+      'fields 0.005), magnitude / phase columns against real / imaginary, the source listing against the complex source voltage; synthetic currents, fields, loads and powers drive magnitudes 1e-30 .. '
       '1e12 of both signs with rounding-boundary mantissas through every field; the number formatter is swept over 43 decades.',
       'Level other: TLC decides the structure only; the numeric read-back is decided by the projection (harness/c19.py, harness/report.py).',
       'batched TLC comparison with ReportGrammar.tla + numeric read-back by the report parser', 'DESIGN.md 4 C19')
@@ -172,9 +172,11 @@ check('C04', 'model_checking',
       '(A) structural sub-statement: with the surrogate kernel installed the real compute_near_field, run with injected complex currents, must '
       'reproduce the closed-form E and H of the pulse currents and their charges (image currents over ground) evaluated from the pulse table '
       'of spec/Topology.tla on seeded lattice coordinates (straight, bent, branched, end-1/end-1 and end-2/end-2 junctions, tapered unequal '
-      'segments, wires grounded at either end, power scaling) to 1e-9 of the summed contribution magnitudes. (B) with the true kernel on six '
+      'segments, wires grounded at either end, power scaling; two observation points per call) to 1e-9 of the summed contribution magnitudes. '
+      '(C) the 1 % clause with the true kernel (see level note). (B) with the true kernel on six '
       'solved antennas at 1000 wavelengths: transverse near field = reported far-field-absolute value (2.5 % of the pattern maximum), '
-      '|E|/|H| = 376.7 ohm (0.5 %), radial components below 3 %, fields scale with sqrt(power).',
+      '|E|/|H| = 376.7 ohm (0.5 %), radial components below 3 % (E: plus the discretisation term of the pulse model, w |A| (k d)^2 / 24 '
+      'from the solved currents), fields scale with sqrt(power).',
       _sur + 'Part (B) thresholds are set by the discretisation error of lambda/12 .. lambda/20 segments (the residual does not shrink with '
       'distance); the property states no tolerance for the far-zone limit.',
       'TLC pulse tables + surrogate-kernel closed forms vs the real near-field code; far-zone relations on solved antennas', 'DESIGN.md 4 C04, 1')
@@ -207,12 +209,13 @@ check('C06', 'exploration',
       'a comparison of implementation outputs. Structures are a fixed list inside the stated domain; measured deviations are 1e-10 .. 5e-7.',
       'TLC (TopologyOn.tla) joint-current maps per description + solved comparison across descriptions', 'DESIGN.md 4 C06, 3.2')
 check('C03', 'exploration',
-      'Seven grounded structures (monopole, inverted L, sloping wire grounded at end 1 or 2, two grounded ends, elevated + grounded, sloping '
-      'branch, horizontal wire over ground): every wire order and direction choice of the ground model is paired with its free-space mirror '
+      'Fixed grounded structures (monopole, inverted L, sloping wire grounded at end 1 or 2, a mast leaning out of the vertical, two grounded '
+      'ends, elevated + grounded, sloping branch, horizontal wire over ground) plus seeded random ones: every wire order and direction choice of the ground model is paired with its free-space mirror '
       'model (every wire duplicated at -z, grounded wires continued into their image; straight-2n variant for vertical wires). '
       'spec/TopologyOn.tla (TLC) checks all Topology invariants on both models and the relation N_free = 2 N_ground - #ground pulses on the two '
       'records. The pulse correspondence with signs follows from pulse positions and directions. Both models are solved for every single feed '
-      'pulse (ground pulses with 2 V on the plane pulse of the mirror model) and two seeded two-source sets: currents through the correspondence, '
+      'pulse (ground pulses with 2 V on the plane pulse of the mirror model) and two seeded two-source sets, every second set with lumped loads '
+      '(grounded pulse loaded first; Z on pulse and mirror pulse, 2 Z on the plane pulse): currents through the correspondence, '
       'feed impedances (half rule for grounded feeds) and gain (+3.0103 dB on a 6 x 8 direction grid) must agree (5e-4 / 0.01 dB, '
       'condition-number rule).',
       'Exploration level: structure and counts by TLC, numeric agreement is a comparison of implementation outputs; measured deviations below 3e-9.',
